@@ -11,7 +11,7 @@ META = {
     'text': 'Decides on every path: a Cancel message read from the transport is routed to the aborting removal keyed by the decoded id; that removal aborts the removed entry\'s handle and '
             'drops its timer on a hit and does nothing on a miss; the handler AND the response send live inside one Abortable whose registration is the pair-mate of the handle stored under '
             'the request\'s id; the channel writes a response to the transport only on the hit edge of the removal keyed by the response\'s id (so nothing is sent for cancelled requests); '
-            'abort is called only by the table. Cascade follows from Rust drop semantics plus C03 (an aborted handler drops its nested call guards). Known finding D5: with a request '
+            'abort is called only by the table. Cascade follows from Rust drop semantics plus C03 (an aborted handler drops its nested call guards); the client-side link of the cascade is decided here too: a cancellation id taken from the queue whose entry was removed is written in the same activation (C04.owed), and a written Cancel is flushed (C04.cascade). Known finding D5: with a request '
             'limiter at its limit and a sink that is not ready, cancel processing is delayed.',
     'note': 'Trusted: futures Abortable never polls its inner future again after abort; Rust drop semantics. Chains of depth 2-3 are covered by composition with C03, not by analysing a composed program.',
 }
